@@ -3,6 +3,7 @@ package rules
 import (
 	"fmt"
 	"go/types"
+	"strings"
 
 	"cvsslint/internal/facts"
 	"cvsslint/internal/load"
@@ -119,6 +120,10 @@ func (e *Env) metricTables(l *facts.Level, fv *types.Var, m *spec.Metric) {
 		}
 		for code := range specCodes {
 			strs[code] = true
+			strs[strings.ToLower(code)] = true
+		}
+		for sc := range e.F.StringConsts(g) {
+			strs[sc] = true
 		}
 		for _, s := range sortedKeys(strs) {
 			r := e.F.Eval(g, facts.StringValue(s))
@@ -440,6 +445,9 @@ func (e *Env) versionTables() {
 		}
 		for s := range labels {
 			strs[s] = true
+		}
+		for sc := range e.F.StringConsts(g) {
+			strs[sc] = true
 		}
 		for _, s := range sortedKeys(strs) {
 			r := e.F.Eval(g, facts.StringValue(s))
